@@ -282,6 +282,9 @@ func (f *Framer) readSynStreamFrame(h ControlFrameHeader, frame *SynStreamFrame)
 	if err = binary.Read(f.r, binary.BigEndian, &frame.Slot); err != nil {
 		return err
 	}
+	if h.length < 10 {
+		return &Error{InvalidControlFrame, frame.StreamId}
+	}
 	reader := f.r
 	if !f.headerCompressionDisabled {
 		err := f.uncorkHeaderDecompressor(int64(h.length - 10))
@@ -325,6 +328,9 @@ func (f *Framer) readSynReplyFrame(h ControlFrameHeader, frame *SynReplyFrame) e
 		return err
 	}
 	frame.StreamId = frame.StreamId & 0x7fffffff
+	if h.length < 4 {
+		return &Error{InvalidControlFrame, frame.StreamId}
+	}
 	reader := f.r
 	if !f.headerCompressionDisabled {
 		err := f.uncorkHeaderDecompressor(int64(h.length - 4))
@@ -375,6 +381,9 @@ func (f *Framer) readHeadersFrame(h ControlFrameHeader, frame *HeadersFrame) err
 		return err
 	}
 	frame.StreamId = frame.StreamId & 0x7fffffff
+	if h.length < 4 {
+		return &Error{InvalidControlFrame, frame.StreamId}
+	}
 	reader := f.r
 	if !f.headerCompressionDisabled {
 		err := f.uncorkHeaderDecompressor(int64(h.length - 4))
